@@ -22,9 +22,10 @@ func (c *Ctx) StoreCommit(prop string, s *Slashing) {
 	// --- single store
 	{
 		fn := s.StoreStore
-		esc, commits := NilErrorNeeds(fn, func(ci ssa.CallInstruction) bool { return IsCallTo(ci, dbUpdate) })
+		txnCommit := "(*" + pkgBadger + ".Txn).Commit"
+		esc, commits := NilErrorNeeds(fn, func(ci ssa.CallInstruction) bool { return IsCallTo(ci, dbUpdate) || IsCallTo(ci, txnCommit) })
 		if len(commits) == 0 {
-			c.R.Fail(rule, Fn(fn), c.P.FuncPos(fn), "no call to (*badger.DB).Update found in the single-record store", "nil error only as the verdict of db.Update", nil)
+			c.R.Fail(rule, Fn(fn), c.P.FuncPos(fn), "no synchronous commit ((*badger.DB).Update or (*badger.Txn).Commit) found in the single-record store", "nil error only as the verdict of a synchronous commit", nil)
 		}
 		for _, e := range esc {
 			c.R.Fail(rule, Fn(fn), c.Pos(e.Ret), "the store "+e.Why+" without a successful db.Update", "every nil-error return is the verdict of db.Update", an.PathString(c.Pos, e.Path))
@@ -36,6 +37,31 @@ func (c *Ctx) StoreCommit(prop string, s *Slashing) {
 		for _, ci := range commits {
 			if _, ok := ci.(*ssa.Call); !ok {
 				c.R.Fail(rule, Fn(fn)+":sync", c.Pos(ci), "db.Update is started with go/defer: the caller gets its verdict before the commit", "plain synchronous call", nil)
+			}
+			if IsCallTo(ci, txnCommit) {
+				// explicit transaction: txn.Set(key, value) of the parameters must succeed before Commit on every path
+				sets := Calls(fn, func(c2 ssa.CallInstruction) bool { return IsCallTo(c2, txnSet) })
+				okSet := false
+				for _, st := range sets {
+					a := st.Common().Args
+					if len(a) == 3 && a[0] == ci.Common().Args[0] && paramIndexOf(fn, a[1]) == 2 && paramIndexOf(fn, a[2]) == 3 {
+						errs := map[ssa.Value]bool{}
+						for _, e := range errValuesOfCall(st) {
+							errs[e] = true
+						}
+						target := ci.(ssa.Instruction)
+						if x, _ := an.Cut(an.CutQuery{From: an.Entry(fn), Target: func(i ssa.Instruction) bool { return i == target },
+							AcceptEdge: func(b *ssa.BasicBlock, i int, a *an.Atom) bool { return errNilAtom(a, errs) }}); x == nil {
+							okSet = true
+						}
+					}
+				}
+				if !okSet {
+					c.R.Fail(rule, Fn(fn)+":txn-body", c.Pos(ci), "Commit is reachable without a successful txn.Set(key, value) of the store's own parameters on the same transaction", "txn.Set(key, value) err == nil before txn.Commit()", nil)
+				} else {
+					c.R.OK(rule, Fn(fn)+":txn-body", c.Pos(ci), "explicit transaction: Set(key,value) succeeded before the synchronous Commit")
+				}
+				continue
 			}
 			// the transaction body sets (key, value) of the parameters and returns that error
 			args := ci.Common().Args
